@@ -21,6 +21,9 @@ func checkC09(p *Prog, r *Report) {
 	c09Reduk(p, r)
 	c09Root(p, r)
 	c09DayLength(p, r)
+	c09AnnualStart(p, r)
+	// "finite": the partial operations of the crop routines stay inside their domains (shared machinery with C06.R6)
+	domainRule(p, r, "C09.R7", "the crop development, root and vernalisation routines", []string{"hermes.PhytoOut", "hermes.root", "hermes.vern", "hermes.radia"}, 50)
 	r.Note("not decided: finiteness and non-negativity of masses over whole growing seasons (multi-day state), phenology in calendar terms, anything about shipped parameter values")
 }
 
@@ -605,4 +608,93 @@ func c09DayLength(p *Prog, r *Report) {
 		}
 	}
 	r.Ob("divisions", first, divs > 0 && bad == 0, fmt.Sprintf("%d stores divide by the effective day length; %d of them can see the unlifted value (before the lift, or not through it)", divs, bad))
+}
+
+// c09AnnualStart: organ masses are zeroed at harvest, so every sowing of an
+// annual crop has to start from the crop file's initial masses and N
+// concentrations; only a continued perennial stand may keep what it has.  The
+// exemption in the parameter readers must therefore require the perennial
+// flag: without it, an annual crop following itself is sown with mass 0 and
+// the N concentration becomes 0/0 on the sowing day.
+func c09AnnualStart(p *Prog, r *Report) {
+	r.Rule("C09.R6", "an annual crop always starts from the crop file's initial organ masses and N concentrations: in every crop parameter reader the stores of WORG, GEHOB and WUGEH are taken on every path on which the perennial flag is false", 6)
+	for _, key := range []string{"hermes.ReadCropParamClassic", "hermes.ReadCropParamYml"} {
+		x := walked(p, key)
+		if x == nil {
+			r.Ob("reader:"+strings.TrimPrefix(key, "hermes."), "-", false, "not found")
+			continue
+		}
+		// the value the reader stores in the perennial flag
+		flag := ""
+		for _, e := range x.Events {
+			if e.Kind == "assign" && e.Root == "GlobalVarsMain.DAUERKULT" {
+				flag = verRe.ReplaceAllString(e.Val.String(), "")
+			}
+		}
+		isFlag := func(c *Cond) bool {
+			if flag == "" {
+				return false
+			}
+			t := verRe.ReplaceAllString(c.Key(), "")
+			return strings.Contains(t, flag) || strings.Contains(t, "DAUERKULT")
+		}
+		for _, root := range []string{"GlobalVarsMain.WORG", "GlobalVarsMain.GEHOB", "GlobalVarsMain.WUGEH"} {
+			var family [][]*Cond
+			var assume []*Cond
+			pos := "-"
+			var collect func(c *Cond)
+			collect = func(c *Cond) {
+				switch c.Kind {
+				case "and", "or", "not":
+					for _, s := range c.Sub {
+						collect(s)
+					}
+				default:
+					if isFlag(c) {
+						assume = append(assume, &Cond{Kind: "not", Sub: []*Cond{c}})
+					}
+				}
+			}
+			for _, e := range x.Events {
+				if e.Kind != "assign" || e.Root != root {
+					continue
+				}
+				pos = p.Pos(e.Pos)
+				var gs []*Cond
+				for _, g := range e.Guards {
+					if g.Loop {
+						continue
+					}
+					gs = append(gs, g)
+					collect(g)
+				}
+				// conditions that only steer the reader through the file (line counters) are not decisions about the crop
+				var keep []*Cond
+				for _, g := range gs {
+					if mentionsCropState(g) {
+						keep = append(keep, g)
+					}
+				}
+				family = append(family, keep)
+			}
+			name := strings.TrimPrefix(key, "hermes.") + ":" + shortRoot(root)
+			if len(family) == 0 {
+				r.Ob("annual-start:"+name, "-", false, "no store of "+shortRoot(root)+" in the reader")
+				continue
+			}
+			ok, why := coversAllPaths(family, assume)
+			det := fmt.Sprintf("%d store(s); perennial flag as the reader sees it: %s", len(family), clip(flag, 60))
+			if !ok {
+				det += " — with the perennial flag false the initialisation is skipped on: " + why
+			}
+			r.Ob("annual-start:"+name, pos, ok, det)
+		}
+	}
+}
+
+// mentionsCropState: the condition tests the rotation position, the crop
+// sequence or the perennial flag (as opposed to positions in the file).
+func mentionsCropState(c *Cond) bool {
+	t := c.Key()
+	return strings.Contains(t, "AKF") || strings.Contains(t, "FRUCHT") || strings.Contains(t, "DAUERKULT") || strings.Contains(t, "LINE1b[32]")
 }
